@@ -221,6 +221,10 @@ func runC19(c *Ctx) {
 		}
 	})
 
+	c.rule("C19.W2", "no event is withheld from a subscriber: notifySubscribers hands every event it receives to every registered subscriber (no per-subscriber height filter: a subscriber's view after a reorg below its registration tip would otherwise miss re-connected blocks), and a subscription's bestHeight is fixed at creation", func() {
+		c.fanOutAll()
+	})
+
 	c.rule("C19.V1", "NotificationsSinceHeight: the backlog bound is filterHeaderTip read under newFilterHeadersMtx, and the backlog covers height+1 .. bestHeight in increasing order with the header fetched for each height", func() {
 		fn := c.fn(fnSince)
 		res := c.lockResults()
